@@ -205,8 +205,11 @@ def run(ctx):
     for sz in (3, 5):
         families.append(('color', Color666Code(sz), [('Color666MPSDecoder', lambda mode, stp: Color666MPSDecoder(), None)]))
 
+    import time
+    sect = {}
     kern = []
     for fam, code, decs in families:
+        t_fam = time.time()
         n, m = code.n_k_d[0], code.stabilizers.shape[0]
         oracle = GroupOracle(code)
         S = code.stabilizers
@@ -315,6 +318,8 @@ def run(ctx):
                                               dict(rep0, a=str(ks[i]), b=str(ks[j])))
                                 break
 
+        sect[repr(code)] = round(time.time() - t_fam, 1)
+    t_sec = time.time()
     # ---- library error models through decode (documented distributions) ----------------------------------
     for code, dec in ((PlanarCode(3, 3), PlanarMPSDecoder()), (PlanarCode(2, 3), PlanarRMPSDecoder(mode='a')),
                       (RotatedPlanarCode(3, 3), RotatedPlanarMPSDecoder(mode='r')),
@@ -343,6 +348,8 @@ def run(ctx):
                 elif srt[0] and (srt[0] - srt[1]) * 10 ** 9 > srt[0] and exact_int[cls] != srt[0]:
                     ctx.violation('decode-argmax', 'decode returns a recovery outside the most likely coset', rep)
 
+    sect['library models'] = round(time.time() - t_sec, 1)
+    t_sec = time.time()
     # ---- node values of the planar network ---------------------------------------------------------------
     tnc = PlanarMPSDecoder.TNC()
     for dist in [rand_dist(rng) for _ in range(3)]:
@@ -365,6 +372,8 @@ def run(ctx):
                         ctx.violation('node-value', name + ' value is not the probability of the sample times the adjacent '
                                       'stabilizer choices', {'f': fch, 'nesw': [nn, e, s, w], 'dist': list(dist), 'got': v})
 
+    sect['node values'] = round(time.time() - t_sec, 1)
+    t_sec = time.time()
     # ---- planar Y decoder ---------------------------------------------------------------------------------
     ydec = PlanarYDecoder()
     for (rr, cc) in [(r_, c_) for r_ in range(2, 6) for c_ in range(2, 6)]:
@@ -434,11 +443,15 @@ def run(ctx):
                 ctx.violation('y-argmax', 'PlanarYDecoder returns a recovery from the less likely coset',
                               dict(rep, totals={str(k): str(v) for k, v in tot.items()}))
 
+    sect['Y decoder'] = round(time.time() - t_sec, 1)
+    t_sec = time.time()
     # ---- correspondence with the extracted model -----------------------------------------------------------
     out = ctx.model('c10', req, timeout=1500)
     for (fn, inp, impl), mo, line in zip(exp, out, req):
         ctx.cmp(fn, inp if inp is not None else line[:300], impl, mo)
     ctx.extra['model_requests'] = len(req)
+    sect['model engine'] = round(time.time() - t_sec, 1)
+    ctx.extra['section_seconds'] = sect
 
     # ---- in-kernel shard -------------------------------------------------------------------------------------
     from harness.common import coq_bits, coq_list
